@@ -364,7 +364,13 @@ package rules
 // Chunk headers (C14): the running array size grows by the BYTE count of the chunk (elements
 // times element width, bit arrays rounded up), and that sum is what is compared with the limit.
 // Ending a zero-length chunk runs the rule machinery (tryEndArray may end the array and reject for
-// other reasons); tryEndArray is assumed not to touch the byte counters.
+// other reasons); tryEndArray is assumed not to touch the byte counters. The assumption is backed by
+// two enumerations: the counters are stored to only in beginArray and markUpcomingChunkByteCount, and
+// neither is reachable from tryEndArray in the over-approximated call graph (every implementation
+// of an interface method it reaches, every function whose value is taken for a dynamic call).
+//@ structural rules-arraytotal-writers: only_writers rules.Context.arrayTotalByteCount in rules: rules.(*Context).beginArray rules.(*Context).markUpcomingChunkByteCount
+//@ structural rules-arraymax-writers: only_writers rules.Context.arrayMaxByteCount in rules: rules.(*Context).beginArray
+//@ structural rules-tryendarray-reaches-no-counter-writer: not_reachable tryEndArray in rules: rules.(*Context).beginArray rules.(*Context).markUpcomingChunkByteCount
 //@ func (*Context).tryEndArray
 //@   trusted
 //@   modifies obj(_this), memall(contextStackEntry), memall(byte), maps, alloc
